@@ -496,6 +496,10 @@ fn marathon(invariants_mode: bool, rep: &mut Report) {
     let mut rng = Rng::new(0xC10_C11);
     let page = mk_pages(5, 1, &mut rng);
     for i in 0..70_000usize {
+        if i % 256 == 0 && crate::util::soft_deadline_passed() {
+            rep.count("loops_cut_short_at_the_soft_deadline");
+            break;
+        }
         let op = [Op::ShutDown, Op::Show, Op::LoadNext, Op::ConfigureIfNeeded, Op::Show, Op::ShutDown, Op::LoadNext, Op::SendPages][i % 8].clone();
         let pages: &[Page<'static>] = if op == Op::SendPages { &page } else { &[] };
         let upset = if i % 7 == 3 { Some((rng.usize(6), SYM_BUS_ERROR)) } else if i % 11 == 5 { Some((rng.usize(6), rng.below(N_SYMBOLS as u64) as u16)) } else { None };
@@ -652,6 +656,11 @@ fn random_conversation(ctx: &Ctx, rng: &mut Rng, invariants_mode: bool, rep: &mu
         sess = sess.with_relay();
         rep.count("conversations_over_a_relaying_bus");
     }
+    // one conversation in four gets one of its replies (a state report or an acknowledgement, at a random depth) as an
+    // UNKNOWN frame wrapped around that very message's bytes
+    if rng.chance(1, 4) {
+        sess = sess.with_wrapped_reply_at(rng.usize(14));
+    }
     if rng.chance(1, 2) {
         for _ in 0..1 + rng.usize(3) {
             let op0 = OPS_ALL[rng.usize(6)].clone();
@@ -666,6 +675,7 @@ fn random_conversation(ctx: &Ctx, rng: &mut Rng, invariants_mode: bool, rep: &mu
     }
     let c = sess.call(&op, &pages, vec![], 400, pick, false);
     monitor(&c, ty, pages.len(), invariants_mode, rep);
+    rep.add("replies_delivered_as_unknown_frames_around_a_known_message", sess.wrapped_replies() as u64);
     rep.count("random_conversations");
 }
 
@@ -769,6 +779,7 @@ pub fn run(ctx: &Ctx, invariants_mode: bool) -> Outcome {
         floor("every canned earlier call performed, then every operation enumerated on the same Sign object", report.set_len("preludes_performed") >= PRELUDES.len() as u64 && report.get("conversations_with_a_reused_sign_object") > 100_000, format!("{} preludes, {} conversations", report.set_len("preludes_performed"), report.get("conversations_with_a_reused_sign_object"))),
         floor("bus errors of every kind (custom, io::Error Interrupted / TimedOut / WouldBlock, wrapped io::Error, FrameError around an io::Error, a relayed SignError of either variant)", report.set_len("bus_error_flavours") == 10, report.set_len("bus_error_flavours")),
         floor("conversations over a bus that makes controller calls of its own (to another sign) while it handles each message: half of the failing streaks, a sixth of the random conversations", report.get("failing_streaks_over_a_relaying_bus") == 42 && report.get("conversations_over_a_relaying_bus") > 100, format!("{} / {}", report.get("failing_streaks_over_a_relaying_bus"), report.get("conversations_over_a_relaying_bus"))),
+        floor("state reports and acknowledgements delivered as Message::Unknown around their own frame", report.get("replies_delivered_as_unknown_frames_around_a_known_message") > 500, report.get("replies_delivered_as_unknown_frames_around_a_known_message")),
         floor("calls that fail exactly k times in a row on one Sign object, then ordinary calls (14 counts x 6 kinds of failure)", report.get("failing_streaks_followed_by_ordinary_calls") == 84, report.get("failing_streaks_followed_by_ordinary_calls")),
         floor("page flips that are polled 10 .. 70 000 times before they complete", report.get("long_polls_that_ended_in_success") == 28, report.get("long_polls_that_ended_in_success")),
         floor("one Sign object used for 70 000 calls", report.get("marathon_calls_on_one_sign_object") == 70_000, report.get("marathon_calls_on_one_sign_object")),
